@@ -264,8 +264,8 @@ def popBuffer (n : Nat) (s : QState) : Except Err (List Cell × QState) :=
 
 The same loop with `next_trial(decrement=False)`: `pop_key` does not call `decrement_key`, so no counter
 changes and no key leaves the ordering. (The log entry's `decrement` flag, which `requeue` consults, is not
-modelled: these definitions are for pause-free histories only and no theorem mentions them; they exist so
-that the correspondence check can drive the real code through this argument as well.) -/
+modelled: these definitions are for pause-free histories only. Theorems: `PsiProofs/C02ND.lean` — refinement,
+the decrement schedule, timeline theorems for histories mixing both kinds of request.) -/
 
 def nextTrialND (s : QState) : Except Err (Option QState) :=
   match nextKey s with
